@@ -437,4 +437,57 @@ Section Breakdown.
 
   (* the value the sort module should hold for this CPU *)
   Definition bd_of (st : wires) : Z := to_i64 (bd_value (w_tt st) (w_ss st) (w_idle st)).
+
+  (* every batch of a history is admissible in the state it meets *)
+  Fixpoint history_ok (st : wires) (h : list (list (cin * value))) : bool :=
+    match h with
+    | [] => true
+    | b :: r =>
+      batch_ok st b &&
+      match cpu_event st b with Some st' => history_ok st' r | None => false end
+    end.
+
+  (* the CPU channels alone under the same history (what cpu.prv shows) *)
+  Definition written (st : wires) (b : list (cin * value)) : wires := fst (apply_writes b st []).
+  Definition cin_values (st : wires) : value * value * value := (w_ss st, w_tt st, w_idle st).
+
+  (* --- all physical CPUs + the sort module.  An entry (i, b) is the part of an emulator event
+     that concerns CPU i (an event that touches two CPUs, e.g. an affinity change, is two
+     entries).  sort_cb_input for input i sees tri when tri's turn comes in the dirty list;
+     that value is what the per-CPU model records in w_sval. *)
+  Record system := { s_cpus : list wires; s_sort : sortmod }.
+
+  Definition sys_init (n : nat) : system := {| s_cpus := repeat w_init n; s_sort := sm_init n |}.
+
+  Definition sys_step (s : system) (e : nat * list (cin * value)) : option system :=
+    let (i, b) := e in
+    match nth_error (s_cpus s) i with
+    | None => None
+    | Some w =>
+      match cpu_event w b with
+      | None => None
+      | Some w' =>
+        match input_changed (s_sort s) i (VInt (w_sval w')) with
+        | M_ok sm' _ => Some {| s_cpus := upd i w' (s_cpus s); s_sort := sm' |}
+        | M_err => None
+        end
+      end
+    end.
+
+  Fixpoint sys_run (s : system) (h : list (nat * list (cin * value))) : option system :=
+    match h with
+    | [] => Some s
+    | e :: r => match sys_step s e with Some s' => sys_run s' r | None => None end
+    end.
+
+  Fixpoint sys_history_ok (s : system) (h : list (nat * list (cin * value))) : bool :=
+    match h with
+    | [] => true
+    | e :: r =>
+      match nth_error (s_cpus s) (fst e) with
+      | Some w => batch_ok w (snd e)
+      | None => false
+      end &&
+      match sys_step s e with Some s' => sys_history_ok s' r | None => false end
+    end.
 End Breakdown.
